@@ -150,6 +150,23 @@ def add_rd(interp, dt, rd):
     y1, m1, d1 = interp.simp(year), interp.simp(month), interp.simp(day)
     if simple:
         return DT(y1, m1, d1, hour, minute, second, micro)
+    if zero_time and rd.weekday is None and isinstance(days, int) and 1 <= abs(days) <= 2:
+        # +-1 / +-2 days: step through the calendar directly (lemma cal.successor: ordinal moves by 1)
+        y2, m2, d2 = y1, m1, d1
+        for _ in range(abs(days)):
+            if days > 0:
+                over = And(Eq(y2, 9999), Eq(m2, 12), Eq(d2, 31))
+            else:
+                over = And(Eq(y2, 1), Eq(m2, 1), Eq(d2, 1))
+            if interp.branch(over):
+                raise PyRaise("OverflowError", "date value out of range")
+            ny, nm, nd = cal.next_day(y2, m2, d2) if days > 0 else cal.prev_day(y2, m2, d2)
+            ny, nm, nd = interp.simp(ny), interp.simp(nm), interp.simp(nd)
+            if is_z3(ny) or is_z3(nm) or is_z3(nd):
+                interp.assume(cal.ordinal(ny, nm, nd) == cal.ordinal(y2, m2, d2) + (1 if days > 0 else -1))
+                interp.assume(cal.valid_date(ny, nm, nd))
+            y2, m2, d2 = ny, nm, nd
+        return DT(y2, m2, d2, hour, minute, second, micro)
     o = cal.ordinal(y1, m1, d1)
     if zero_time:
         o2 = o + days
